@@ -363,7 +363,38 @@ def _builtin_name_cases(tier):
                         {"component": "M", "key": f"builtin-name/{sib}", "instances": insts}]}}
 
 
+DEFAULTED = [("str", "dflt"), ("str", ""), ("int", 3), ("int", 0), ("num", 1.5), ("bool", True), ("bool", False), ("date", "2020-01-02"),
+             ("datetime", "2020-01-02T03:04:05+00:00"), ("uuid", K.UUID2), ("enum_str", "b"), ("enum_int", -2), ("enum_ref", "y"),
+             (["nullable", "str", "t31"], "dflt"), (["nullable", "int", "t30"], 3), (["array", "int"], [1, 2])]
+
+
+def _default_cases(tier):
+    """Properties that declare a `default`: a valid instance that omits them (or spells them out) re-encodes to itself."""
+    for kind, dflt in DEFAULTED:
+        for req in (False, True):
+            for where in ("first", "last"):
+                for other_req in (True, False):
+                    comps = {}
+                    sch = K.schema(kind, comps)
+                    if "$ref" in sch:
+                        sch = {"allOf": [sch]}
+                    sch = dict(sch, default=dflt)
+                    other = ("o", "int")
+                    props = [("p", kind), other] if where == "first" else [other, ("p", kind)]
+                    required = [n for n, r in (("p", req), ("o", other_req)) if r]
+                    version = "3.0.3" if _uses_30(kind) else "3.1.0"
+                    doc = _model_doc(props, required, comps=comps, version=version)
+                    doc["components"]["schemas"]["M"]["properties"]["p"] = sch
+                    key = f"default/{K.kstr(kind)}/{'req' if req else 'opt'}"
+                    yield {"labels": [f"kind={K.kstr(kind)}", f"default={dflt!r}", "req" if req else "opt", f"declared-{where}",
+                                      "other-req" if other_req else "other-opt"],
+                           "payload": {"doc": doc, "options": {}, "targets": [{"component": "M", "key": key,
+                                       "props": {"p": [K.kstr(kind), req], "o": ["int", other_req]},
+                                       "instances": _instances(props, required)}]}}
+
+
 def cases(tier):
+    yield from _default_cases(tier)
     yield from _discriminated_union_cases(tier)
     yield from _builtin_name_cases(tier)
     yield from _usage_cases(tier)
